@@ -19,6 +19,7 @@ DROPPED = [
     "logging.* / print / warnings calls (evaluated as no-ops)",
     "plotting methods (plot*, pylab) are never entered",
     "string formatting that only builds messages",
+    "decorators other than @property / @x.setter / @x.getter (none occur in the library) are ignored",
 ]
 
 
@@ -60,7 +61,25 @@ class ClassInfo:
         self.attr_nodes = {}  # plain class attributes: name -> ast expr
         for st in node.body:
             if isinstance(st, ast.FunctionDef):
-                self.methods[st.name] = FuncInfo(st, module, self)
+                # decorator form of properties: `@property def x` / `@x.setter def x` are the getter / setter of property x
+                # (kept under synthetic method names, since both carry the property's own name)
+                role = None
+                for d in st.decorator_list:
+                    if isinstance(d, ast.Name) and d.id == "property":
+                        role = ("get", st.name)
+                    elif isinstance(d, ast.Attribute) and isinstance(d.value, ast.Name) and d.attr in ("setter", "getter", "deleter"):
+                        role = (d.attr[:3], d.value.id)
+                if role is not None:
+                    key = "__prop_%s_%s" % role
+                    self.methods[key] = FuncInfo(st, module, self)
+                    pi = self.props.get(role[1]) or PropertyInfo(role[1], None, None)
+                    if role[0] == "get":
+                        pi.fget = key
+                    elif role[0] == "set":
+                        pi.fset = key
+                    self.props[role[1]] = pi
+                else:
+                    self.methods[st.name] = FuncInfo(st, module, self)
             elif isinstance(st, ast.Assign) and len(st.targets) == 1 and isinstance(st.targets[0], ast.Name):
                 nm = st.targets[0].id
                 v = st.value
